@@ -1,6 +1,6 @@
 CONSTANTS
   Tier = "thorough"
-  SampleN = 30000
+  SampleN = 24000
 INIT GInit
 NEXT GNext
 CHECK_DEADLOCK FALSE
